@@ -32,7 +32,7 @@ def jdump(obj, path):
 
 def spec_for(prop, tier, seed, i):
     from .profiles import PROFILES
-    from .gen import gen_spec, sanitize
+    from .gen import gen_spec, sanitize, ALL_RULES
 
     pr = PROFILES[prop]
     rs = sub(seed, prop, tier, i)
@@ -42,7 +42,11 @@ def spec_for(prop, tier, seed, i):
     P = pr.pick(r, tier)
     S = gen_spec(r, P)
     if not P.get("allow_known") and not os.environ.get("VERIF_NO_SANITIZE"):
-        S = sanitize(S)
+        rules = P.get("rules", ALL_RULES)
+        off = os.environ.get("VERIF_RULES_OFF")
+        if off:
+            rules = tuple(x for x in rules if x not in off.split(","))
+        S = sanitize(S, rules)
     if pr.post is not None:
         S = pr.post(S, r, tier)
     return rs, S
@@ -56,7 +60,7 @@ def _chunk(args):
 
     pr = PROFILES[prop]
     agg = {"status": Counter(), "counts": Counter(), "events": 0, "simtime": 0.0, "digests": [], "sigs": set(),
-           "viol": [], "harness": [], "feat": Counter(), "samples": [], "n": 0}
+           "viol": [], "harness": [], "feat": Counter(), "samples": [], "n": 0, "states": set()}
     for i in range(lo, hi):
         rs, S = spec_for(prop, tier, seed, i)
         if S is None:
@@ -82,6 +86,8 @@ def _chunk(args):
             agg["digests"].append(res["digest"])
         if len(agg["sigs"]) < 20000:
             agg["sigs"].add(res.get("sig"))
+        if len(agg["states"]) < 100000:
+            agg["states"].update(res.get("states", ()))
         if st in ("violation", "crash", "hang"):
             if len(agg["viol"]) < 40:
                 agg["viol"].append({"i": i, "run_seed": rs, "spec": S, "clause": res["clause"], "msg": res["msg"], "step": res["step"]})
@@ -94,6 +100,7 @@ def _chunk(args):
             agg["samples"].append({"index": i, "run_seed": rs, "digest": res["digest"], "events": res["events"],
                                    "features": res["feats"], "spec": S})
     agg["sigs"] = list(agg["sigs"])
+    agg["states"] = list(agg["states"])
     return agg
 
 
@@ -173,6 +180,7 @@ def explore(prop, tier, seed, workers=None, out=print):
     tot = {"status": Counter(), "counts": Counter(), "events": 0, "simtime": 0.0, "feat": Counter(), "n": 0}
     digests = set()
     sigs = set()
+    states = set()
     viols = []
     samples = []
     chunk = bud.get("chunk", 250)
@@ -187,6 +195,8 @@ def explore(prop, tier, seed, workers=None, out=print):
         tot["n"] += agg["n"]
         digests.update(agg["digests"])
         sigs.update(agg["sigs"])
+        if len(states) < 2000000:
+            states.update(agg["states"])
         viols.extend(agg["viol"])
         harness.extend(agg["harness"])
         if len(samples) < 3:
@@ -287,6 +297,8 @@ def explore(prop, tier, seed, workers=None, out=print):
             "feature_frequency": {k: v for k, v in sorted(tot["feat"].items())},
             "distinct_event_order_signatures": len(sigs),
             "distinct_event_order_signatures_note": "lower bound, per-worker sets capped at 20000",
+            "distinct_abstract_states": len(states),
+            "distinct_abstract_states_note": "per-node (population, customers holding a server, blocked customers) vectors after each event, 64-bit hashes, first 400 per run, capped sets: a lower bound",
             "inconclusive_step_cap_runs": tot["status"].get("cap", 0),
             "discarded_out_of_domain_runs": tot["status"].get("discard", 0),
             "known_findings_reconfirmed": known_lines,
